@@ -286,14 +286,35 @@ fn check_unused_defines(
             0,
             &hierarchy);
 
-        if let None = maybe_decl
+        match maybe_decl
         {
-            report.error(
-                format!(
-                    "unused define `{}`",
-                    symbol_def.name));
+            None =>
+            {
+                report.error(
+                    format!(
+                        "unused define `{}`",
+                        symbol_def.name));
 
-            had_error = true;
+                had_error = true;
+            }
+
+            Some(decl_ref) =>
+            {
+                // Only constants can be overwritten from the command-line;
+                // a define naming a label would be silently ignored
+                if let util::SymbolKind::Constant = decls.symbols.get(decl_ref).kind
+                {
+                }
+                else
+                {
+                    report.error(
+                        format!(
+                            "define `{}` does not name a constant",
+                            symbol_def.name));
+
+                    had_error = true;
+                }
+            }
         }
     }
 
